@@ -136,6 +136,10 @@ impl<'text> Vars<'text> {
     pub fn get_all(&self) -> &FxHashMap<&'text str, String> {
         &self.0
     }
+
+    pub fn into_all(self) -> FxHashMap<&'text str, String> {
+        self.0
+    }
 }
 
 impl<'a> Env for Vars<'a> {
